@@ -122,13 +122,24 @@ class RenderNode(Node):
                 namespace["forloop"] = forloop
                 namespace[key] = None
 
-                # `ctx` carries the iterations of loops enclosing this tag. Count
-                # this loop too, for loops nested in the partial template.
-                with ctx.carry_loop(len(val)):
-                    for itm in forloop:
-                        namespace[key] = itm
+                for itm in forloop:
+                    namespace[key] = itm
+                    # Every item is rendered in an isolated context of its own:
+                    # what the partial assigns, captures or counts for one item
+                    # is not visible when it is rendered for the next.
+                    item_ctx = context.copy(
+                        token=self.token,
+                        namespace=namespace,
+                        disabled_tags=self.disabled,
+                        carry_loop_iterations=True,
+                        template=template,
+                    )
+                    # `item_ctx` carries the iterations of loops enclosing this
+                    # tag. Count this loop too, for loops nested in the partial
+                    # template.
+                    with item_ctx.carry_loop(len(val)):
                         character_count += template.render_with_context(
-                            ctx, buffer, partial=True, block_scope=True
+                            item_ctx, buffer, partial=True, block_scope=True
                         )
             else:
                 namespace[key] = val
@@ -190,13 +201,24 @@ class RenderNode(Node):
                 namespace["forloop"] = forloop
                 namespace[key] = None
 
-                # `ctx` carries the iterations of loops enclosing this tag. Count
-                # this loop too, for loops nested in the partial template.
-                with ctx.carry_loop(len(val)):
-                    for itm in forloop:
-                        namespace[key] = itm
+                for itm in forloop:
+                    namespace[key] = itm
+                    # Every item is rendered in an isolated context of its own:
+                    # what the partial assigns, captures or counts for one item
+                    # is not visible when it is rendered for the next.
+                    item_ctx = context.copy(
+                        token=self.token,
+                        namespace=namespace,
+                        disabled_tags=self.disabled,
+                        carry_loop_iterations=True,
+                        template=template,
+                    )
+                    # `item_ctx` carries the iterations of loops enclosing this
+                    # tag. Count this loop too, for loops nested in the partial
+                    # template.
+                    with item_ctx.carry_loop(len(val)):
                         character_count += await template.render_with_context_async(
-                            ctx, buffer, partial=True, block_scope=True
+                            item_ctx, buffer, partial=True, block_scope=True
                         )
             else:
                 namespace[key] = val
